@@ -658,7 +658,13 @@ impl State {
                         let gs = format!("{}", g);
                         std::hint::black_box(&gs);
                     }
+                    // formatting parameters (the fixed-column idiom of log lines, `{:16.16}`; fill, alignment, precision
+                    // alone) ask for another layout at most, never for a panic
+                    fmt_params(a);
+                    fmt_params(a.get_value());
+                    fmt_typed(a);
                 }
+                fmt_params(&m);
                 std::hint::black_box(&acc);
                 let mut v = Vec::new();
                 let re = match m.encode_to(&mut v) {
@@ -1470,6 +1476,80 @@ impl State {
                     None => "bad-op".into(),
                 }
             }
+            ["cliflood", n] => {
+                // very many requests outstanding at once, none answered; the peer closes; every future fails, and a send
+                // attempted afterwards fails (or gives a future that fails) - it does not hang. No model run behind it: the
+                // theorems of C12 hold for any number of waiters, this is the code at that number.
+                let n: usize = match n.parse() {
+                    Ok(n) => n,
+                    Err(_) => return "bad-op".into(),
+                };
+                let dict = self.dict.clone();
+                fresh_rt().block_on(async move {
+                    use diameter::transport::{DiameterClient, DiameterClientConfig};
+                    use tokio::io::AsyncReadExt;
+                    let hour = std::time::Duration::from_secs(3600);
+                    let _ = diameter::verif::take_events();
+                    let (cs, mut ps) = tokio::io::duplex(1 << 16);
+                    let mut client = DiameterClient::new("127.0.0.1:1", DiameterClientConfig { use_tls: false, verify_cert: false });
+                    let mut handler = client.verif_attach_stream(cs);
+                    let d2 = dict.clone();
+                    let reader = tokio::spawn(async move {
+                        DiameterClient::handle(&mut handler, d2).await;
+                    });
+                    let total = n * 20;
+                    let peer = tokio::spawn(async move {
+                        let mut b = vec![0u8; 1 << 16];
+                        let mut got = 0usize;
+                        while got < total {
+                            match ps.read(&mut b).await {
+                                Ok(0) | Err(_) => break,
+                                Ok(k) => got += k,
+                            }
+                        }
+                        drop(ps);
+                    });
+                    let mut futs = Vec::with_capacity(n);
+                    for i in 0..n {
+                        let m = DiameterMessage::new(CommandCode::CreditControl, ApplicationId::CreditControl, 0x80, 7 + i as u32, i as u32, dict.clone());
+                        match tokio::time::timeout(hour, client.send_message(m)).await {
+                            Ok(Ok(f)) => futs.push(f),
+                            Ok(Err(_)) => return format!("send {} refused while the connection is fine", i),
+                            Err(_) => return format!("send {} hangs while the connection is fine", i),
+                        }
+                        if i % 4096 == 0 {
+                            let _ = diameter::verif::take_events();
+                        }
+                    }
+                    let _ = peer.await;
+                    if tokio::time::timeout(hour, reader).await.is_err() {
+                        return "reader does not stop after the peer closed".to_string();
+                    }
+                    let (mut pending, mut got) = (0usize, 0usize);
+                    for f in futs {
+                        match tokio::time::timeout(hour, f).await {
+                            Err(_) => pending += 1,
+                            Ok(Ok(_)) => got += 1,
+                            Ok(Err(_)) => {}
+                        }
+                    }
+                    let mut late = vec![];
+                    for k in 0..3u32 {
+                        let m = DiameterMessage::new(CommandCode::CreditControl, ApplicationId::CreditControl, 0x80, k, k, dict.clone());
+                        late.push(match tokio::time::timeout(hour, client.send_message(m)).await {
+                            Err(_) => "hang",
+                            Ok(Err(_)) => "fails",
+                            Ok(Ok(f)) => match tokio::time::timeout(hour, f).await {
+                                Err(_) => "hang",
+                                Ok(Err(_)) => "fails",
+                                Ok(Ok(_)) => "answered",
+                            },
+                        });
+                    }
+                    let _ = diameter::verif::take_events();
+                    format!("pending={} got={} late={}", pending, got, late.join(","))
+                })
+            }
             ["sdecnt", n, evs] => {
                 // `sdec` on a runtime that has no time driver (an embedding application need not enable one): the stream
                 // reader needs no timers
@@ -2008,6 +2088,50 @@ impl<'a> std::io::Seek for Frag<'a> {
 /// every stream scenario runs on a runtime of its own (current thread, paused virtual time): whatever it leaves behind -
 /// reader tasks parked on silent peers, watchers with an hour to go - goes away with it and cannot stir during a later
 /// scenario (a leftover task polled later would drain the library's process-wide event log into its own, stale trace)
+fn fmt_params<T: std::fmt::Display>(x: &T) {
+    let v = [
+        format!("{:16.16}", x),
+        format!("{:>8}", x),
+        format!("{:.3}", x),
+        format!("{:<40.5}", x),
+        format!("{:^1.1}", x),
+        format!("{:*^9.4}", x),
+        format!("{:0>4}", x),
+        format!("{:.0}", x),
+        format!("{:2.2}", x),
+        format!("{:#}", x),
+        format!("{:+}", x),
+        format!("{:300}", x),
+        format!("{:1$.2$}", x, 7, 7),
+    ];
+    std::hint::black_box(&v);
+}
+
+/// the typed values on their own (an application formats `avp.get_utf8string()` more often than the AVP)
+fn fmt_typed(a: &Avp) {
+    if let Some(v) = a.get_utf8string() {
+        fmt_params(v);
+    }
+    if let Some(v) = a.get_identity() {
+        fmt_params(v);
+    }
+    if let Some(v) = a.get_address() {
+        fmt_params(v);
+    }
+    if let Some(v) = a.get_octetstring() {
+        fmt_params(v);
+    }
+    if let Some(v) = a.get_time() {
+        fmt_params(v);
+    }
+    if let Some(v) = a.get_diameter_uri() {
+        fmt_params(v);
+    }
+    if let Some(v) = a.get_unsigned32() {
+        fmt_params(&v);
+    }
+}
+
 fn fresh_rt() -> tokio::runtime::Runtime {
     tokio::runtime::Builder::new_current_thread().enable_all().start_paused(true).build().unwrap()
 }
